@@ -251,7 +251,11 @@ FAMILIES = {'T1': T1, 'T2': T2, 'A1': A1, 'K1': K1, 'K2': K2, 'D2': D2, 'L1': L1
 
 def prog_id(spec):
     fam = spec['fam']
-    rest = ','.join(f"{k}={'+'.join(v) if isinstance(v, (list, tuple)) else v}" for k, v in sorted(spec.items())
+    def _fmt(v):
+        if isinstance(v, (list, tuple)):
+            return '+'.join(_fmt(x).replace('+', ':') if isinstance(x, (list, tuple)) else str(x) for x in v)
+        return str(v)
+    rest = ','.join(f"{k}={_fmt(v)}" for k, v in sorted(spec.items())
                     if k not in ('fam', 'id', 'tier', 'seed', 'selftest'))
     return f"{fam}({rest})"
 
@@ -259,7 +263,7 @@ def prog_id(spec):
 def build_program(spec, seed=0, positive=False):
     """-> (nn.Module with dyadic generic weights, input shape without batch)"""
     fam = spec['fam']
-    kw = {k: v for k, v in spec.items() if k not in ('fam', 'pit', 'id', 'tier', 'seed', 'selftest', 'T', 'exclude', 'bn_stats')}
+    kw = {k: v for k, v in spec.items() if k not in ('fam', 'pit', 'id', 'tier', 'seed', 'selftest', 'T', 'exclude', 'bn_stats', 'after')}
     if fam in ('F1', 'K2', 'T2', 'H1') and 'T' in spec:
         kw['T'] = spec['T']
     if fam in ('K1', 'K3') and 'origins' in kw:
@@ -310,6 +314,12 @@ def make_pit(spec, seed=0, positive=False, **pit_kw):
         kw.setdefault('exclude_types', (nn.Linear,))
     model.eval()
     pit = PIT(model, input_shape=shape, **kw)
+    # `after`: switches set after construction (another phase of the search: train_features / train_rf / train_dilation off, train_net_only(), ...)
+    for name, val in spec.get('after', []):
+        if val == 'call':
+            getattr(pit, name)()
+        else:
+            setattr(pit, name, val)
     pit.eval()
     return pit, model, shape
 
